@@ -365,8 +365,15 @@ def run_loader_stream(ck, kind, files):
 # ---------------------------------------------------------------- the seven patterns, one line at a time
 
 def repo_patterns():
+    """the seven compiled patterns of the code under test, by the names the model's ASTs are written next to; None where the name is gone
+    (the loaders are then compared file by file only)"""
     from io_drawer import ilog as il, hlog, trace as tr
-    return [il.TBL_START_RE, il.TBL_ENTRY_RE, il.TBL_END_RE, hlog.HLOG_START_RE, hlog.HLOG_FIELD_RE, hlog.HLOG_END_RE, tr.TraceStringFile.LINE_RE]
+    out = []
+    for owner, name in ((il, 'TBL_START_RE'), (il, 'TBL_ENTRY_RE'), (il, 'TBL_END_RE'), (hlog, 'HLOG_START_RE'), (hlog, 'HLOG_FIELD_RE'),
+                        (hlog, 'HLOG_END_RE'), (getattr(tr, 'TraceStringFile', None), 'LINE_RE')):
+        pat = getattr(owner, name, None)
+        out.append(pat if hasattr(pat, 'fullmatch') else None)
+    return out
 
 
 PATTERN_NAMES = ['TBL_START_RE', 'TBL_ENTRY_RE', 'TBL_END_RE', 'HLOG_START_RE', 'HLOG_FIELD_RE', 'HLOG_END_RE', 'LINE_RE']
@@ -446,6 +453,12 @@ def pattern_lines(rng, k, n, base_lines):
 def run_pattern_stream(ck, ks, rng, n, base):
     """`pattern.fullmatch(line)` (None-ness and groups()) of the repo's compiled patterns against the Lean matcher on the Lean ASTs"""
     pats = repo_patterns()
+    gone = [k for k in ks if pats[k] is None]
+    for k in gone:
+        # the correspondence of this pattern cannot be run any more: a break of the tie, not a verdict on the property (the loaders are still
+        # compared with the model on whole files, where a behavioural difference shows as a failing input)
+        ck.disagree('the pattern %s that the model transcribes is no longer there in the code under test' % PATTERN_NAMES[k], {'op': 'fullmatch', 'case': PATTERN_NAMES[k]})
+    ks = [k for k in ks if pats[k] is not None]
     reqs, meta = [], []
     for k in ks:
         for l in pattern_lines(rng, k, n, base.get(k, [])):
